@@ -398,6 +398,56 @@ var rterrForms = []string{
 	"delete(1)",
 	"uq%s++",
 	"wq%s = [1, 2]\nvw%s, okw%s = wq%s[5]",
+	"cq%s = make(chan int64, 1)\ncq%s <- 1\nbq%s = [1]\nvc%s, bq%s[5] = <-cq%s",
+	"cr%s = make(chan int64, 1)\nclose(cr%s)\nvr%s, nosuch%s.x = <-cr%s",
+}
+
+// knownRecvOkForm is the index of the form behind the recorded known finding of this property (known_findings.json): a
+// two-value receive statement that RECEIVES a value ignores an error of its ok target - the unedited suite pins that
+// (`b, 1++ = <- a` is expected to succeed), so it cannot be repaired here.
+const knownRecvOkForm = 26
+
+func hasKnownForm(ns []*Node) bool {
+	for _, n := range ns {
+		if n == nil {
+			continue
+		}
+		if n.K == "rterr" && n.N%len(rterrForms) == knownRecvOkForm {
+			return true
+		}
+		if hasKnownForm(n.Body) || hasKnownForm(n.Catch) || hasKnownForm(n.Finally) || hasKnownForm(n.Else) {
+			return true
+		}
+	}
+	return false
+}
+
+func stripKnownForm(ns []*Node) {
+	for _, n := range ns {
+		if n == nil {
+			continue
+		}
+		if n.K == "rterr" && n.N%len(rterrForms) == knownRecvOkForm {
+			n.N = 0
+		}
+		stripKnownForm(n.Body)
+		stripKnownForm(n.Catch)
+		stripKnownForm(n.Finally)
+		stripKnownForm(n.Else)
+	}
+}
+
+// StripKnown returns the case with every statement of the known form replaced by another failing statement.
+func (Prop) StripKnown(c *harness.Case) (*harness.Case, bool) {
+	var w Work
+	if json.Unmarshal(c.Workload, &w) != nil || !hasKnownForm(w.Prog) {
+		return nil, false
+	}
+	stripKnownForm(w.Prog)
+	d := c.Clone()
+	d.Workload, _ = json.Marshal(w)
+	d.Source = Render(&w)
+	return d, true
 }
 
 func rterrSrc(n int, id string) string {
@@ -1244,6 +1294,9 @@ func (Prop) Run(t *testing.T, c *harness.Case, verbose bool) *harness.Result {
 		res.Detail = fmt.Sprintf("%s\nfaults (k-th host call -> kind): %v\nexpected trace: %s\nactual trace:   %s\nexpected error: %q  actual error: %q\n%s",
 			detail, faults, strings.Join(a.trace, " "), strings.Join(trace, " "), a.err, got, src)
 		res.Signature = class
+		if hasKnownForm(w.Prog) {
+			res.Signature += " recv-ok-target-error-ignored"
+		}
 		res.Detail = strings.NewReplacer(subMsg, "~", anyMsg, "<any error>").Replace(res.Detail)
 		return res
 	}
